@@ -20,7 +20,7 @@
       that finds the channel full completes as soon as the receiver drains, so the frames receivable after
       a drain-until-pending are the same;
     - the expiry stored in [Ready] is GHOST state: the Rust [MsgEntry::Ready(Vec<u8>)] does not store it and
-      no function below reads it ([erase_ghost] in Proofs/RelayInv.v makes that a lemma); it names "the
+      no function below reads it (theorem [ghost_not_read], Proofs/RelaySpec.v / Props/C15.v); it names "the
       message's own expiry" in the invariants of C16. *)
 From SL Require Import Lib.Base Gen.Params.
 Local Open Scope N_scope.
